@@ -29,6 +29,15 @@ def run(chk: Check) -> None:
     persisted_fields(chk)
     load_is_deterministic(chk)
     snapshot_isolation(chk)
+    # a Bundle that is unbundled more than once ("possibly several times in a row") must give the same process each time: what unbundle() hands to the
+    # load path has to be detached from the bundle, because load_members / the context mixin take values out of the saved state without copying
+    ub = prog.func('persistence.Bundle.unbundle')
+    lc = [c for c in calls_in_func(ub, 'load')]
+    arg0 = lc[0].args[0] if len(lc) == 1 and lc[0].args else None
+    detached = isinstance(arg0, ast.Call) and last_name(arg0) in ('deepcopy',)
+    chk.ob('PROV-snapshot-isolation', ub, detached, 'Bundle.unbundle loads from a copy of the bundle' + ('' if detached else
+           ': it hands the bundle itself to Savable.load, the loaded process shares the context entries / state arguments with it, so continuing that process changes the bundle and a '
+           'second unbundle() yields a process that resumes from somewhere else'), node=lc[0] if lc else None, kind='unbundle-detached')
     # the context is saved as ONE object graph (the copy is taken of the whole saved state): copying it entry by entry would duplicate what two
     # entries share, and the resumed run would update one copy while reading the other
     cm = prog.func('mixins.ContextMixin.save_instance_state')
